@@ -663,7 +663,8 @@ class AgentExecutingComponent(rpu.AgentComponent):
         name = task.get('name') or tid
         sbox = os.path.realpath(task['task_sandbox_path'])
 
-        if sbox.startswith(self._pwd):
+        # only for paths *in* the pilot sandbox, not for `<pilot_sandbox>_foo/`
+        if sbox == self._pwd or sbox.startswith(self._pwd + '/'):
             sbox = '$RP_PILOT_SANDBOX%s' % sbox[len(self._pwd):]
 
         gpr = td['gpus_per_rank']
